@@ -155,6 +155,8 @@ func c01(ctx *run.Ctx) {
 	c01TypedCases(ctx)
 	// Parameterless constructors against the documented defaults.
 	c01CtorCases(ctx)
+	// Public float fields must matter.
+	c01FieldCases(ctx)
 	// Fixed witness cases of the known findings.
 	for wi, wt := range reg.Witnesses {
 		wi, wt := wi, wt
